@@ -246,6 +246,7 @@ def symbolic_while(it, s, fr, spec, ordinal):
     c = it.eval(s.test, fr)
     if ops.truth(it, c, s.test):
         v0 = spec.decreases(cx, fr.env) if spec.decreases is not None else None
+        snap = spec.iter_pre(cx, fr.env, None, None) if spec.iter_pre is not None else None
         log = []
         cx.write_logs.append(log)
         try:
@@ -261,6 +262,9 @@ def symbolic_while(it, s, fr, spec, ordinal):
             if log in cx.write_logs:
                 cx.write_logs.remove(log)
         _check_writes(cx, log, havocked, ordinal, fr)
+        if spec.iter_post is not None:
+            for name, f in spec.iter_post(cx, fr.env, snap, None, None):
+                cx.prove(f"{tag}.iteration:{name}", f, where=f"line {s.lineno}", assume_after=False)
         for name, f in spec.inv(cx, fr.env, None, None):
             cx.prove(f"{tag}.preserved:{name}", f, where=f"line {s.lineno}", assume_after=False)
         if v0 is not None:
